@@ -295,6 +295,9 @@ def binop(ex, st, op, a, b, node=None, inplace=False):
 
 
 def seq_binop(ex, st, op, a, b):
+    if op == "Mod" and (isinstance(a, str) or (is_z3(a) and a.sort() == S)):
+        return str_percent(ex, st, a, b)
+
     def items(x):
         return list(x.items) if isinstance(x, ListV) else list(x)
     if op == "Add" and isinstance(a, (ListV, tuple)) and isinstance(b, (ListV, tuple)):
@@ -340,6 +343,17 @@ def compare(ex, st, op, a, b, node=None):
         else:
             r = a0 is b0
         if op == "IsNot":
+            return (not r) if isinstance(r, bool) else z3.Not(r)
+        return r
+    if type(a0).__name__ == "DTypeV" and type(b0).__name__ == "DTypeV":
+        if op not in ("Eq", "NotEq"):
+            raise Unsupported("ordering of dtypes")
+        if a0.kind is None or b0.kind is None or "str" in (a0.kind, b0.kind) and a0.kind == b0.kind:
+            # object vs str dtype of string columns (and unknown kinds) is not modelled: arbitrary outcome
+            r = fresh(B, "dtype_eq")
+        else:
+            r = a0.kind == b0.kind
+        if op == "NotEq":
             return (not r) if isinstance(r, bool) else z3.Not(r)
         return r
     if isinstance(a0, Vec) or isinstance(b0, Vec):
@@ -477,7 +491,8 @@ def str_concat(items):
 
 
 def str_percent(ex, st, fmt, args):
-    raise Unsupported("% string formatting")
+    used(ex, "'%' string formatting yields an opaque string (only used in log messages)")
+    return fresh(S, "fmt")
 
 
 # =============================================================================== vectors
@@ -910,6 +925,36 @@ def sf_implies(ex, st, e):
     return [(st, z3.Implies(a, _b(b)))]
 
 
+@special("use")
+def sf_use(ex, st, e):
+    """use("lemma", var=expr, ...): the named lemma instantiated at the given terms, as a formula
+    (requires => ensures).  It is a proof hint: the lemma is proved separately (or listed as trusted),
+    so `implies(use(...), goal)` is equivalent to `goal`."""
+    from .engine import Frame
+    name = ex.ev1(e.args[0], st)
+    lm = dsl.LEMMAS.get(name)
+    if lm is None:
+        raise SpecError("unknown lemma %r" % (name,))
+    env = {}
+    for kw in e.keywords:
+        env[kw.arg] = ex.ev1(kw.value, st)
+    missing = [v for v in lm.vars if v not in env]
+    if missing:
+        raise SpecError("use(%s): variables %s not bound" % (name, missing))
+    if lm.trusted:
+        ex.ctx.used_trusted.add("lemma:" + name)
+    else:
+        ex.ctx.used_lemmas = getattr(ex.ctx, "used_lemmas", set()) | {name}
+    if ex.assume_mode:
+        return [(st, True)]
+    s2 = st.fork()
+    s2.env = dict(env)
+    pre = [_b(ex.truth(ex.ev1(ex.spec_expr(r), s2), s2)) for r in lm.requires]
+    post = [_b(ex.truth(ex.ev1(ex.spec_expr(t if isinstance(t, str) else t[1]), s2), s2)) for t in lm.ensures]
+    st.heap.update({k: v for k, v in s2.heap.items() if k not in st.heap})
+    return [(st, z3.Implies(z3.And(pre + [z3.BoolVal(True)]), z3.And(post + [z3.BoolVal(True)])))]
+
+
 @special("old")
 def sf_old(ex, st, e):
     old = st.ghost.get("__old__")
@@ -949,7 +994,18 @@ def sf_let(ex, st, e):
     return [(st, r)]
 
 
+_SPEC_AST = {}
+
+
 def spec_ast(fn):
+    if fn in _SPEC_AST:
+        return _SPEC_AST[fn]
+    r = _spec_ast(fn)
+    _SPEC_AST[fn] = r
+    return r
+
+
+def _spec_ast(fn):
     src = textwrap.dedent(inspect.getsource(fn))
     tree = ast.parse(src)
     node = tree.body[0]
